@@ -75,6 +75,10 @@ EXPLANATION += (
     ' Round 14: contiguity shortcuts decided from end points and length apply to sorted, distinct sequences only (R-ARITH/span-contiguity).'
 )
 
+EXPLANATION += (
+    ' Round 15: no worker count takes a code path of its own (R-PROV/worker-count-special-case, rule of C04).'
+)
+
 RULE_TEXT = (
     "one obligation per step / chunk-extent site, per range relation of "
     "the dispatch loop, per piece-list mutation, per dispatcher x member")
